@@ -107,6 +107,11 @@ def get_emit_kwarg(decorator_list, emit_call, emit_name, name_tpl, name):
             "json_schema": {
                 "identifier": _name,
             },
+            "pydantic": {
+                "class_name": _name,
+                "decorator_list": decorator_list,
+                "emit_call": emit_call,
+            },
             "sqlalchemy": {"table_name": _name},
             "sqlalchemy_hybrid": {"table_name": _name},
             "sqlalchemy_table": {"table_name": _name},
